@@ -376,7 +376,11 @@ func (c *connectorC) consume(ctx context.Context, pl Payload) error {
 	}
 	if len(c.seq) > 0 {
 		var errs []error
-		for _, route := range c.seq {
+		// every second connector instance resolves ALL its routes first and keeps the consumers it was given, then
+		// forwards through them (a connector that caches its routes); the others resolve a route when they use it
+		keep := c.inst%2 == 0
+		nexts := make([]*Next, len(c.seq))
+		resolve := func(i int, route []string) {
 			next := c.next
 			if !(len(route) == 1 && route[0] == "*") {
 				n, err := requestRoute(c.next, route)
@@ -384,11 +388,24 @@ func (c *connectorC) consume(ctx context.Context, pl Payload) error {
 					m := out.Msg()
 					c.env.routeError(RouteError{Key: c.key, Inst: c.inst, Tag: m.Tag, Trail: m.Trail, Route: route, Err: err.Error()})
 					errs = append(errs, fmt.Errorf("kit: %s cannot route to %v: %w", c.key, route, err))
-					continue
+					return
 				}
 				next = n
 			}
-			errs = append(errs, next.Consume(ctx, out))
+			nexts[i] = &next
+		}
+		if keep {
+			for i, route := range c.seq {
+				resolve(i, route)
+			}
+		}
+		for i, route := range c.seq {
+			if !keep {
+				resolve(i, route)
+			}
+			if nexts[i] != nil {
+				errs = append(errs, nexts[i].Consume(ctx, out))
+			}
 		}
 		return errors.Join(errs...)
 	}
